@@ -214,7 +214,7 @@ func mergeUpdateAuthorizerTotalStakesEvents() *eventsMergerImpl[Authorizer] {
 }
 
 func mergeAuthorizerHealthCheckEvents() *eventsMergerImpl[dbs.DbHealthCheck] {
-	return newEventsMerger[dbs.DbHealthCheck](TagAuthorizerHealthCheck, withUniqueEventOverwrite())
+	return newEventsMerger[dbs.DbHealthCheck](TagAuthorizerHealthCheck, withHealthCheckMerged())
 }
 
 func mergeAuthorizerBurnEvents() *eventsMergerImpl[state.Burn] {
